@@ -631,6 +631,15 @@ pub fn run(ep: &Value, ctx: &mut Ctx) {
                 }
                 _ => na(),
             },
+            // unsafe: the scripts call it only inside its precondition (fewer than n values so
+            // far, value <= u and not smaller than the last one), which the specification re-checks
+            "push_unchecked" => match &mut st {
+                St::B(b) => {
+                    let x = wide(&op["x"]);
+                    guard(|| unsafe { b.push_unchecked(x) }).map(|_| json!({}))
+                }
+                _ => na(),
+            },
             "extend" => match &mut st {
                 St::B(b) => {
                     let xs = wide_list(&op["xs"]);
